@@ -233,6 +233,12 @@ class Violin(object):
             values = sen.values
             x0, x1 = sen.min(), sen.max()
 
+            # No density for constant data
+            if x1 - x0 < 1e-10:
+                kde_x.loc[:, cn] = np.nan
+                kde_y.loc[:, cn] = np.nan
+                continue
+
             # reduce impact of censored data
             ilow = np.abs(values-x0) < 1e-10
             if ilow.sum() > 1:
